@@ -177,6 +177,13 @@ def _doc_with_refs(draw):
             parts.append(f"{draw(nm)} {draw(nm)} at {draw(legal._num)}")
         elif k < 10:
             parts.append(f"{draw(nm)} v. {draw(nm)} at {draw(legal._num)}")
+        elif k < 11 and draw(st.booleans()):
+            # id./supra with a pin-cite list (no 'at') ending in a comma, then a nominative reporter name used as a
+            # party name directly in front of a real citation (the nominative token is popped in favour of it)
+            from vf.gen.inventory import NOMINATIVE_NAMES
+            lead = draw(st.sampled_from(["Id.", "Ibid.", f"{draw(nm)}, supra,", "id."]))
+            pins = draw(st.sampled_from(["¶¶ 12, 15, 18,", "nn. 3, 4,", "§§ 2, 3,", "12, 15,", "pp. 4, 5, 6,"]))
+            parts.append(f"{lead} {pins} {draw(st.sampled_from(NOMINATIVE_NAMES))}, {draw(legal._num)} {draw(st.sampled_from(['A.3d', 'U.S.', 'F.2d', 'U. S.']))} {draw(legal._num)} (2019)")
         elif k < 11:
             # a 'Name at N' mention whose number doubles as the volume of a following citation
             parts.append(f"{draw(nm)} at {draw(legal._num)} {draw(legal.reporter())}{draw(st.sampled_from([' ', ', ']))}{draw(legal._num)}")
